@@ -792,6 +792,9 @@ func ruleSIBroles(w *World, r *Report) {
 			reqParam = p
 		}
 	}
+	if reqParam == nil && len(fn.Params) >= 3 && isStringType(fn.Params[1].Type()) {
+		reqParam = fn.Params[1] // (receiver, required role, target namespace): the role by position, whatever it is called
+	}
 	if reqParam == nil {
 		r.Und("SIB-roles", "HasAccess:param", w.Pos(ha.Decl.Pos()), "no requiredRole parameter")
 		return
@@ -858,7 +861,26 @@ func ruleSIBroles(w *World, r *Report) {
 		}
 		return false
 	}
+	// membership of something in the policy's own namespace list, asked of the library: slices.Contains(p.Namespaces, x)
+	isNsContains := func(in ssa.Instruction) bool {
+		c, ok := in.(*ssa.Call)
+		if !ok || len(c.Call.Args) != 2 {
+			return false
+		}
+		g := c.Call.StaticCallee()
+		if g == nil {
+			return false
+		}
+		o := g
+		if g.Origin() != nil {
+			o = g.Origin()
+		}
+		return o.Pkg != nil && o.Pkg.Pkg.Path() == "slices" && o.Name() == "Contains" && recvField(c.Call.Args[0], "Namespaces")
+	}
 	isGrantGuard := func(in ssa.Instruction) bool {
+		if isNsContains(in) {
+			return true
+		}
 		bo, ok := in.(*ssa.BinOp)
 		if !ok || bo.Op != token.EQL {
 			return false
@@ -894,9 +916,20 @@ func ruleSIBroles(w *World, r *Report) {
 			case *ssa.Phi:
 				for i, e := range x.Edges {
 					p := x.Block().Preds[i]
+					// `a || b` with a a grant guard: the constant true arrives over the guard's own true edge
+					if iff, isIf := p.Instrs[len(p.Instrs)-1].(*ssa.If); isIf && len(p.Succs) == 2 && p.Succs[0] == x.Block() && p.Succs[1] != x.Block() {
+						if ci, isI := iff.Cond.(ssa.Instruction); isI && isGrantGuard(ci) {
+							if c, isC := e.(*ssa.Const); isC && c.Value != nil && c.Value.Kind() == constant.Bool && constant.BoolVal(c.Value) {
+								continue
+							}
+						}
+					}
 					visit(e, p.Instrs[len(p.Instrs)-1], seen)
 				}
 			default:
+				if ci, isI := v.(ssa.Instruction); isI && isNsContains(ci) {
+					return // the answer IS the membership test: true only when the policy lists the namespace
+				}
 				grants = append(grants, at) // a computed answer: must lie behind a grant guard as well
 			}
 		}
@@ -904,13 +937,15 @@ func ruleSIBroles(w *World, r *Report) {
 	}
 	for i, g := range grants {
 		gg := g
-		ok, wit := mustPassGuard(fn, func(in ssa.Instruction) bool { return in == gg }, isGrantGuard, func(in ssa.Instruction) ssa.Value { return in.(*ssa.BinOp) }, true, nil)
+		ok, wit := mustPassGuard(fn, func(in ssa.Instruction) bool { return in == gg }, isGrantGuard, func(in ssa.Instruction) ssa.Value { return in.(ssa.Value) }, true, nil)
 		if len(findInstrs(fn, isGrantGuard)) == 0 {
 			ok = false
 		}
 		r.Cond(ok, "SIB-roles", fmt.Sprintf("HasAccess:grant#%d:behind-admin-or-namespace-match", i+1), w.Pos(g.Pos()), "this way of answering true lies behind the admin bypass or a successful comparison with one of the policy's namespaces", "HasAccess can answer true on a path that passed neither the policy-is-admin test nor a successful comparison with one of the policy's namespaces: access is granted on a property of the request alone (for instance target namespace \"*\" with a read requirement), and the middleware passes \"*\" exactly when it could not determine the namespace — a key restricted to one namespace reads what it must not", w.witness(wit)...)
 	}
-	if len(grants) == 0 {
+	if len(grants) == 0 && len(findInstrs(fn, isNsContains)) > 0 {
+		r.Ok("SIB-roles", "HasAccess:grant#1:behind-admin-or-namespace-match", w.Pos(ha.Decl.Pos()), "every way of answering true is a membership test against the policy's own namespace list")
+	} else if len(grants) == 0 {
 		r.Und("SIB-roles", "HasAccess:grants", w.Pos(ha.Decl.Pos()), "cannot find how HasAccess answers true")
 	}
 }
